@@ -26,6 +26,9 @@ RULE = (
     "affine cost <= input CIGAR's; columns 1-9, 12 and other optional fields unchanged in order; >60000 read bases: record "
     "unchanged. Non-trivial = a '<' step and an edit, or a fragmented input whose cost exceeds the output's, or the "
     "pass-through / long class. Distinct by SHA-1 of the case."
+    " Later additions: shifted slices of 1-6 bases (optimum without '=' columns, exact cost ties), tagless "
+    "records in one batch with a pass-through record, non-zero link overlaps, wrapped FASTA, soft-masked "
+    "graph and read bases, realign to standard output."
 )
 ASSUMPTIONS = ["optimality is only claimed relative to the input CIGAR, as the property states"]
 
